@@ -162,7 +162,8 @@ def check(ctx: Ctx, ev: Evidence) -> list[Finding]:
     # no other call site of the provider
     for e in a.edges:
         for x in e.ev:
-            if x.kind == "env" and x.name == "seq_num_provider.get_and_increment" and not x.func.endswith("_get_next_transfer_seq_num"):
-                out.append(Finding("C19-R5", f"source handler | provider called in {x.func}", "the sequence-number provider is consulted outside the transaction start", x.site))
+            if x.kind == "env" and x.name == "seq_num_provider.get_and_increment" and not (
+                    e.exc is not None or any(y.kind == "env" and y.name == "user.transaction_indication" for y in e.ev)):
+                out.append(Finding("C19-R5", f"source handler | provider consulted on a {e.label[0]} edge that does not start a transaction", "the sequence-number provider is consulted outside the transaction start", x.site))
     ev.extra["explanation"] = "every put_request edge of the source handler's ATS (request mode/closure x MIB mode/closure x handler state), syntax-tree check of the configuration table keys, and a focused abstract run of the transaction start keeping origin terms"
     return out
